@@ -49,6 +49,8 @@ package carv1
 //@   ensures read_error_propagates [C02]: rerr != nil ==> err == rerr
 
 //@ func NewCarReaderWithoutDefaults
+//@   call[fmt.Errorf#1] assert refuses_only_an_archive_without_roots [C02,C09]: herr == nil && ch.Version == 1 && len(ch.Roots) == 0
+//@   call[fmt.Errorf#0] assert refuses_only_another_version [C02,C09]: herr == nil && ch.Version != 1
 //@   let ch, herr := call[ReadHeader#0]
 //@   call[ReadHeader#0] assert same_stream_and_limit [C02,C09]: ref(arg0) == ref(r) && arg1 == maxAllowedHeaderSize
 //@   ensures only_version_1_with_roots [C02,C09]: err == nil ==> herr == nil && ch.Version == 1 && len(ch.Roots) > 0 && result0 != nil
